@@ -19,10 +19,12 @@ Inductive case :=
 | CVal (p : bytes) (remote : bool) (pr : peer) (obs : option bytes)
 (* one whole client exchange against a scripted server.
    pre_free: nothing existed at the validated target before the exchange;
+   root_ok: os.OpenRoot of the base could succeed (file descriptors available);
+   cs: what other parties made of the created path before the client's Remove;
    obs_reply: result code the server read (None: it did not read one);
    obs_mid / obs_after: paths present when the server had read the reply /
    after the client returned that were not there before the exchange *)
-| CExch (remote : bool) (pr : peer) (sc : script) (pre_free : bool)
+| CExch (remote : bool) (pr : peer) (sc : script) (pre_free : bool) (root_ok : bool) (cs : cleanup_state)
         (reads_reply : bool) (obs_reply : option Z) (obs_mid obs_after : list bytes) (obs_nil : bool)
 (* the server's verification of what a client left at the path *)
 | CSrv (client_code : Z) (st : option lstat) (lookup : option bytes)
@@ -47,14 +49,6 @@ Definition optZ_eqb (a b : option Z) : bool :=
   | _, _ => false
   end.
 
-(* directories present (that were not before) after a prefix of the effects *)
-Fixpoint present (effs : list effect) (cur : list bytes) : list bytes :=
-  match effs with
-  | [] => cur
-  | EMkdir p true :: r => present r (cur ++ [p])
-  | EMkdir _ false :: r => present r cur
-  | ERmdir p :: r => present r (filter (fun q => negb (bytes_eqb p q)) cur)
-  end.
 Definition created (effs : list effect) : list bytes :=
   flat_map (fun e => match e with EMkdir p true => [p] | _ => [] end) effs.
 
@@ -77,12 +71,12 @@ Definition check_case (c : case) : bool :=
       | VErr _, None => true
       | _, _ => false
       end
-  | CExch remote pr sc pre_free reads obs_reply obs_mid obs_after obs_nil =>
-      let env := {| open_root_ok := true; mkdir_ok := fun _ => pre_free |} in
+  | CExch remote pr sc pre_free root_ok cs reads obs_reply obs_mid obs_after obs_nil =>
+      let env := {| open_root_ok := root_ok; mkdir_ok := fun _ => pre_free; at_cleanup := fun _ => cs |} in
       let x := client_exchange remote pr env sc in
       (if reads then optZ_eqb (x_reply x) obs_reply else true)
       && (if reads then paths_eqb (created (x_eff x)) obs_mid else true)
-      && paths_eqb (present (x_eff x) []) obs_after
+      && paths_eqb (left_behind env (x_eff x)) obs_after
       && Bool.eqb (match x_ret x with RetNil => true | RetErr _ => false end) obs_nil
   | CSrv code st lookup obs_result obs_user obs_nil =>
       let '(res, who) := server_verdict code st (fun _ => lookup) in
